@@ -4,7 +4,7 @@ import ast
 from ..core import Mutant, norm
 from ..httpx import HC
 from ..absint import Domain, Interp, NORMAL, RETURN, RAISE, is_raise
-from ..astutil import method_call, unparse, parent, in_subtree, is_self_call, oriented
+from ..astutil import method_call, unparse, parent, in_subtree, is_self_call, oriented, guard_atoms
 from ..index import dotted, walk_local
 
 EXPLANATION = ("C19: self.requests.popleft() occurs only in serviceRequests under `not self.waited`; transmit sets waited "
@@ -21,7 +21,7 @@ def guards(node, f):
     while p is not None and p is not f.node:
         if isinstance(p, ast.If):
             pol = any(in_subtree(node, b) for b in p.body)
-            out.append(("" if pol else "not ") + unparse(p.test))
+            out += guard_atoms(p.test, pol)
         p = parent(p)
     return out
 
